@@ -1981,7 +1981,7 @@ static int bufr_get_desc_value ( BUFR_Message *bufr, BufrDescriptor *bd )
                else
                   val = ival;
                }
-            bufr_value_set_int32( bd->value, val );
+            bufr_value_set_int64( bd->value, val );   /* an element wider than 32 bits is held as INT64 */
             if (isdebug)
                {
                sprintf( errmsg, _("IVAL=%lld "), (long long)val );
